@@ -40,6 +40,7 @@ KR2    == { <<"dense", 3>>, <<"mixed", 4>>, <<"none", 1>> }   \* graphs dumped f
 KSim   == { <<"dense", 8>>, <<"mixed", 8>>, <<"dense", 6>>, <<"mixed", 10>>, <<"chain", 12>> }   \* behaviours by simulation (R2, thorough)
 KTiny  == K3 \cup K1 \cup D4
 KSmall == K4 \cup K1 \cup { <<"mixed", 5>> }
+KMid   == KSmall \cup K3 \cup { <<"dense", 5>>, <<"chain", 6>>, <<"accs", 6>>, <<"none", 3>> }   \* thorough tier
 KMany  == K6 \cup K8 \cup KSmall \cup { <<"none", 3>>, <<"dense", 7>> }
 
 NWOf(id) == { n \in NWs : n > 0 } \cup (IF 0 \in NWs THEN { id[2] + 1 } ELSE {})
